@@ -114,6 +114,17 @@ func pairGraph() parsley.Parser {
 // error paths (Name / ReturnError / IsNotFoundError) are where shared state used to live.
 func tokensGraph() parsley.Parser {
 	lt := func(p parsley.Parser, m text.WsMode) parsley.Parser { return text.LeftTrim(p, m) }
+	// a user-supplied identifier parser consulting the keyword table of ITS context
+	idRe := terminal.Regexp(nil, "ID", "identifier", "[a-z_]+", 0)
+	userID := parser.Func(func(ctx *parsley.Context, lrc data.IntMap, pos parsley.Pos) (parsley.Node, data.IntSet, parsley.Error) {
+		n, cp, err := idRe.Parse(ctx, lrc, pos)
+		if err == nil {
+			if v, ok := n.(parsley.LiteralNode); ok && ctx.IsKeyword(fmt.Sprint(v.Value())) {
+				return nil, cp, parsley.NewErrorf(pos, "%v is a keyword", v.Value())
+			}
+		}
+		return n, cp, err
+	})
 	tokenP := combinator.Choice(
 		lt(terminal.Float(nil), text.WsSpaces),
 		lt(terminal.Integer(nil), text.WsSpacesNl),
@@ -124,7 +135,7 @@ func tokensGraph() parsley.Parser {
 		lt(terminal.TimeDuration(nil), text.WsSpaces),
 		lt(terminal.Word(nil, "let", "let"), text.WsSpacesForceNl),
 		text.RightTrim(terminal.Op("=="), text.WsNone),
-		lt(terminal.Regexp(nil, "ID", "identifier", "[a-z_]+", 0), text.WsSpacesNl),
+		lt(userID, text.WsSpacesNl),
 		lt(combinator.Any(terminal.Rune('+'), terminal.Rune('-')).Name("sign"), text.WsSpaces),
 		lt(parser.ReturnError(terminal.Rune('#'), prebuiltErr("!hash")), text.WsSpaces),
 	).Name("token")
